@@ -828,6 +828,13 @@ where
             return;
         }
 
+        // This op has been waiting in the queue. If the map does not hold the entry
+        // anymore (it was invalidated, or evicted as a victim of another candidate),
+        // there is nothing to admit.
+        if !self.holds_entry(&kh.key, &entry) {
+            return;
+        }
+
         if self.has_enough_capacity(new_weight, counters) {
             // There are enough room in the cache (or the cache is unbounded).
             // Add the candidate to the deques.
@@ -889,6 +896,15 @@ where
         for node in skipped_nodes {
             unsafe { deqs.probation.move_to_back(node) };
         }
+    }
+
+    /// Returns `true` if the cache (hash map) holds an entry for the key that shares
+    /// its `EntryInfo` with the given entry.
+    fn holds_entry(&self, key: &Arc<K>, entry: &TrioArc<ValueEntry<K, V>>) -> bool {
+        self.cache
+            .get(key)
+            .map(|e| e.has_entry_info(entry.entry_info()))
+            .unwrap_or(false)
     }
 
     /// Removes the rejected candidate from the cache (hash map), but only when the
